@@ -13,9 +13,10 @@ Definition get_fields_std := get_fields Extracted.fcfg_run.
 Definition pretty_exec := Pretty.from_parse_error Extracted.pretty_run.
 
 Definition compile_std :=
-  Compile.compile Extracted.fcfg_run (insens_guard Extracted.rcfg_run) Extracted.x_leftrec_needs_clone_run Extracted.x_pos_variants_checked_run.
-Definition idents_ok_std := Compile.idents_ok.
-Definition derives_ok_std := Compile.derives_ok.
+  Compile.compile Extracted.fcfg_run (insens_guard Extracted.rcfg_run) Extracted.x_leftrec_needs_clone_run Extracted.x_pos_variants_checked_run
+  Extracted.x_idents_checked_run Extracted.x_cycles_checked_run.
+Definition idents_ok_std := Compile.idents_ok Extracted.x_idents_checked_run.
+Definition derives_ok_std := Compile.derives_ok Extracted.x_idents_checked_run.
 
 Extraction "model.ml"
   compile_std idents_ok_std derives_ok_std Extracted.x_raw_kw_guard_run
